@@ -22,7 +22,7 @@ def _mk(v, scale):
 
 def _vec(c, scale):
     out = {}
-    for k, x in c.__dict__.items():
+    for k, x in c.__dict__.items():        # the object's own fields, as they are now: a lost field shows as absent
         if not isinstance(x, int) or x % scale != 0:
             out[k] = -999999
         else:
@@ -47,6 +47,12 @@ def run_capacity_script(script, scale=1):
                     allocated = allocated - c
                 free = FreeCapacity(total=total, allocated=allocated)
                 res = {"k": "ledger", "free": {f: getattr(free, f) // scale for f in CAP_FIELDS}}
+            elif op == "ShowLedger":
+                texts = [str(total), repr(total), str(allocated), repr(allocated)]
+                free = FreeCapacity(total=total, allocated=allocated)
+                texts.append(str(free))
+                assert all(isinstance(t_, str) for t_ in texts)
+                res = {"k": "ledger", "free": {f: getattr(free, f) // scale for f in CAP_FIELDS}}
             elif op == "CanFit":
                 c = _mk(o["a"], scale)
                 free = FreeCapacity(total=total, allocated=allocated)
@@ -59,6 +65,16 @@ def run_capacity_script(script, scale=1):
                     r = {"k": "vec", "v": _vec(a - b, scale)}
                 elif op == "AddSub":
                     r = {"k": "vec", "v": _vec((a + b) - b, scale)}
+                elif op in ("ShowAdd", "ShowSub", "ShowLt"):
+                    before = (str(a), repr(a), str(b), repr(b))
+                    if op == "ShowAdd":
+                        r = {"k": "vec", "v": _vec(a + b, scale)}
+                    elif op == "ShowSub":
+                        r = {"k": "vec", "v": _vec(a - b, scale)}
+                    else:
+                        r = {"k": "bool", "v": bool(a < b)}
+                    if (str(a), repr(a), str(b), repr(b)) != before:
+                        raise AssertionError("an operand prints differently after being printed and used")
                 elif op == "Gt":
                     r = {"k": "bool", "v": bool(a > b)}
                 elif op == "Lt":
